@@ -206,7 +206,13 @@ def random_case(rng, with_empty=False):
     elems = []
     for _ in range(rng.randrange(0, 13)):
         if rng.random() < 0.25:
-            elems.append({"dflt": codec.enc_data(rng.choice(FREE_TEXT))})
+            if rng.random() < 0.3:
+                # free text that carries a declared identifier outside its window (shifted / in the body)
+                ident = codec.dec_str(rng.choice(regs)["ident"])
+                txt = rng.choice(["  " + ident + " 12 shifted\n", "* " + ident + "\n", "see " + ident + " below\n", "\t" + ident + "\n"])
+                elems.append({"dflt": codec.enc_data(txt)})
+            else:
+                elems.append({"dflt": codec.enc_data(rng.choice(FREE_TEXT))})
         else:
             i = rng.randrange(len(regs))
             data = [canonical_value(rng, fd) for fd in regs[i]["fields"]]
